@@ -1,6 +1,7 @@
 #!/bin/bash
 # run_seeded.sh [ids...] : apply each seeded change to /repo, run the target property's quick check, undo it.
 cd /verif
+export VERIF_EVIDENCE_DIR=/tmp/verif_seeded_evidence
 ids="$@"
 [ -z "$ids" ] && ids=$(ls seeded)
 for id in $ids; do
